@@ -106,6 +106,9 @@ func Discharge(obls []*Obligation, workDir string, timeoutS, seed, parallel int)
 	var wg sync.WaitGroup
 	sem := make(chan struct{}, parallel)
 	for i, o := range obls {
+		if o.Pre {
+			continue
+		}
 		wg.Add(1)
 		sem <- struct{}{}
 		go func(i int, o *Obligation) {
